@@ -374,3 +374,33 @@ def run(ctx):
         "samples": accA.samples[:2] + accB.samples[:1] + accC.samples[:1] + accD.samples[:1],
         "exhaustive": True,
     }
+
+
+def replay(ctx, data):
+    """Re-run the part of the check the recorded input belongs to, on that input only."""
+    inp = data["first"]["input"]
+    sig = data["signature"]
+
+    def b(x):
+        return bytes.fromhex(x[4:]) if x.startswith("hex:") else x.encode("utf-8")
+    if "t" in inp:
+        off = inp["offset"]
+        acc = _dates_work([off])
+    elif "paths" in inp or "dirs" in inp:
+        U = universe()
+        S = tuple(sorted(inp.get("paths", inp.get("dirs")), key=U.index))
+        acc = _paths_work([(U.index(S[0]), len(S))] if S else [(0, 0)])
+    elif "dir" in inp:
+        acc = par.Acc()
+        vs = _u5.SmallestViolations(acc)
+        _pairs(acc, vs)
+        vs.flush()
+    elif "text" in inp:
+        acc = _lines_work([b(inp["text"])])
+    elif "path" in inp:
+        acc = _splitjoin_work([tuple(inp["path"].split("/"))])
+    elif "parts" in inp:
+        acc = _splitjoin_work([tuple(inp["parts"])])
+    else:
+        return True
+    return sig not in [s for s, _ in acc.violations]
